@@ -26,7 +26,8 @@ META = {
         '[n]Sheet!A1 is keyed by the 1-based position in the complete list of '
         'external links - numbering happens before any filtering; (cachekey) '
         'a hand-written memo of resolved references is keyed by everything '
-        'the cached parts are computed from (no key built through a filter).'),
+        'the cached parts are computed from (no key built through a filter).'
+        ' (fast, corners) the parts fast_range2parts looks at come in corner pairs: a first-corner part is never read without the second being looked for.'),
     'not_decided': (
         'That the regexes accept exactly Excel\'s spellings, relative-offset '
         'arithmetic and bijectivity of the column conversion (value-level).'),
@@ -77,9 +78,28 @@ def rule_limits(ctx):
     t = ' '.join(norm_src(n) for n in cmps)
     pc, pr_ = (bc.params + ['c', 'r'])[:2]
 
+    def derived(prm):
+        # the parameter and the locals computed from it (`row = str(int(r))`)
+        names, grew = {prm}, True
+        while grew:
+            grew = False
+            for n in own_nodes(bc):
+                if isinstance(n, ast.Assign) and len(n.targets) == 1 and \
+                        isinstance(n.targets[0], ast.Name) and \
+                        n.targets[0].id not in names and any(
+                        isinstance(x, ast.Name) and x.id in names
+                        for x in ast.walk(n.value)):
+                    names.add(n.targets[0].id)
+                    grew = True
+        return names
+
     def against(prm, limit):
-        return any({norm_src(n.left), norm_src(n.comparators[0])} ==
-                   {prm, '%s()' % limit} for n in cmps)
+        names = derived(prm)
+        return any(({norm_src(n.left), norm_src(n.comparators[0])} -
+                    {'%s()' % limit}) <= names and '%s()' % limit in (
+                        norm_src(n.left), norm_src(n.comparators[0]))
+                   and norm_src(n.left) != norm_src(n.comparators[0])
+                   for n in cmps)
 
     if against(pc, '_maxcol') and against(pr_, '_maxrow'):
         rr.ok('_build_cel elides exactly the last column / last row', OPERAND)
@@ -138,10 +158,26 @@ def rule_groups(ctx):
     p = ctx.project
     R = _regexes(ctx)
     env = ctx.ev.module_env(p.module(OPERAND))
-    keys = env.get('_keys')
-    key_set = {e.v for e in (ctx.ev.iterate(keys) or []) if is_const(e, str)}
+    # the collection of keys the fast path filters its input with: the
+    # iterable of the comprehension `{k: kw[k] for k in <keys> if k in kw}`
+    key_name, literal_keys = '_keys', None
+    fr = p.try_func(OPERAND, 'fast_range2parts')
+    if fr is not None:
+        its = [n.generators[0].iter for n in own_nodes(fr) if isinstance(
+            n, ast.DictComp) and len(n.generators) == 1]
+        if len(its) == 1 and isinstance(its[0], ast.Name):
+            key_name = its[0].id
+        elif len(its) == 1 and isinstance(its[0], (
+                ast.Tuple, ast.List, ast.Set)) and its[0].elts and all(
+                isinstance(e, ast.Constant) and isinstance(e.value, str)
+                for e in its[0].elts):
+            literal_keys = {e.value for e in its[0].elts}
+    keys = env.get(key_name)
+    key_set = literal_keys or {
+        e.v for e in (ctx.ev.iterate(keys) or []) if is_const(e, str)}
     if not key_set:
-        raise AnalysisError('_keys is not a literal set of strings')
+        raise AnalysisError('%s is not a literal collection of strings'
+                            % key_name)
     r2p = p.func(OPERAND, '_range2parts')
     bsi = p.func(OPERAND, '_build_sheet_id')
     consumers = set(key_set) | set(bsi.params) | _str_consts(r2p)
@@ -151,7 +187,9 @@ def rule_groups(ctx):
                    ('formulas/excel/__init__.py', 'ExcelModel.write'),
                    ('formulas/cell.py', 'Cell._missing_ref'),
                    ('formulas/cell.py', 'Ref.__init__')):
-        consumers |= _str_consts(p.func(rel, q))
+        from ..util import with_helpers
+        for g_ in with_helpers(ctx, p.func(rel, q)):
+            consumers |= _str_consts(g_)
     groups = set()
     for name, r in R.items():
         for g in r.group_names():
@@ -215,12 +253,29 @@ def _tail_inlined(ctx, f):
     if not (r and r[0] == 'func'):
         return f
     h = r[1]
-    if h.module is not f.module or h.vararg or h.kwarg or call.keywords or \
-            len(call.args) != len(h.params) or any(
+    if h.module is not f.module or h.vararg or any(
+            isinstance(a, ast.Starred) for a in call.args) or any(
+            k.arg is None for k in call.keywords) or \
+            len(call.args) > len(h.params) or any(
             isinstance(s, (ast.If, ast.For, ast.While, ast.Try, ast.With))
             for s in h.node.body):
         return f
     sub = dict(zip(h.params, call.args))
+    extra = []
+    for k in call.keywords:
+        if k.arg in h.params and k.arg not in sub:
+            sub[k.arg] = k.value
+        elif h.kwarg and k.arg not in h.params:
+            extra.append(k)
+        else:
+            return f
+    if set(sub) != set(h.params):
+        return f
+    if h.kwarg:
+        # `**extra` receives the keywords no parameter takes
+        sub[h.kwarg] = ast.Dict(
+            keys=[ast.Constant(value=k.arg) for k in extra],
+            values=[k.value for k in extra])
 
     class S(ast.NodeTransformer):
         def visit_Name(self, n):
@@ -501,18 +556,35 @@ def rule_fast(ctx):
     # general graph
     r2p = p.func(OPERAND, '_range2parts')
     rr.instances += 1
-    txt = ' '.join(norm_src(n) for n in own_nodes(r2p) if isinstance(n, ast.Call)
-                   and call_name(n) in ('add_function', 'add_data'))
+    # add_function(function_id, function, inputs, outputs) / add_data(data_id,
+    # .., filters=..), arguments read by position or by keyword
+    edges = set()
+    for n in own_nodes(r2p):
+        if not isinstance(n, ast.Call):
+            continue
+        if call_name(n) == 'add_function':
+            a = {k: (n.args[i] if i < len(n.args) else kwarg(n, k))
+                 for i, k in enumerate(('function_id', 'function', 'inputs',
+                                        'outputs'))}
+            if None not in (a['function'], a['inputs'], a['outputs']):
+                edges.add('%s, %s, %s' % (norm_src(a['function']), norm_src(
+                    a['inputs']), norm_src(a['outputs'])))
+        elif call_name(n) == 'add_data':
+            did = n.args[0] if n.args else kwarg(n, 'data_id')
+            flt = kwarg(n, 'filters')
+            if did is not None and flt is not None:
+                edges.add('data %s filters=%s' % (norm_src(did), norm_src(flt)))
+    txt = ' | '.join(sorted(edges))
     need = {
-        "ref filtered by str.upper": "data_id='ref', filters=(str.upper,)",
+        "ref filtered by str.upper": "data 'ref' filters=(str.upper,)",
         "ref built by _build_ref": "_build_ref, ['c1', 'r1', 'c2', 'r2', 'anchor'], ['ref']",
         "name built by _build_id": "_build_id, ['ref', 'sheet_id'], ['name']",
-        "n1 from c1": "function=_col2index, inputs=['c1'], outputs=['n1']",
-        "c1 from n1": "function=_index2col, inputs=['n1'], outputs=['c1']",
-        "n2 from c2": "function=_col2index, inputs=['c2'], outputs=['n2']",
-        "c2 from n2": "function=_index2col, inputs=['n2'], outputs=['c2']",
+        "n1 from c1": "_col2index, ['c1'], ['n1']",
+        "c1 from n1": "_index2col, ['n1'], ['c1']",
+        "n2 from c2": "_col2index, ['c2'], ['n2']",
+        "c2 from n2": "_index2col, ['n2'], ['c2']",
     }
-    missing = [k for k, v in need.items() if v not in txt]
+    missing = [k for k, v in need.items() if v not in edges]
     if missing:
         rr.fail(key_of(r2p, 'general resolver edges'),
                 'the general resolver lacks: %s' % '; '.join(missing),
@@ -530,6 +602,37 @@ def rule_fast(ctx):
         rr.fail(key_of(fr, 'fast path selection'),
                 'fast_range2parts no longer falls through on TypeError only',
                 file=OPERAND, function='fast_range2parts', line=fr.lineno)
+    # both corners: a fast path is chosen by which parts are present, so the
+    # parts it looks at come in corner pairs - a path that reads the first
+    # corner of a spelling and never looks for the second resolves `a:b` to `a`
+    mentioned = {}
+    for n in own_nodes(fr):
+        if isinstance(n, ast.Constant) and isinstance(n.value, str):
+            mentioned.setdefault(n.value, n)
+    env = ctx.ev.module_env(p.module(OPERAND))
+    for n in own_nodes(fr):
+        if isinstance(n, ast.Name) and isinstance(n.ctx, ast.Load):
+            for e in (ctx.ev.iterate(env.get(n.id)) or []) if env.get(
+                    n.id) is not None else []:
+                if is_const(e, str):
+                    mentioned.setdefault(e.v, n)
+    for base in ('r', 'c', 'n', 'rr', 'rc'):
+        if base + '1' not in mentioned:
+            continue
+        rr.instances += 1
+        if base + '2' in mentioned:
+            rr.ok('fast_range2parts looks at %s1 and at %s2' % (base, base),
+                  '%s:%d' % (OPERAND, fr.lineno))
+        else:
+            n = mentioned[base + '1']
+            rr.fail(key_of(fr, 'second corner ignored'),
+                    'fast_range2parts reads the part %r of the first corner '
+                    'but never looks for %r: a two-corner spelling that '
+                    'carries it is resolved to its first corner only, so two '
+                    'different rectangles share one identifier' % (
+                        base + '1', base + '2'), file=OPERAND,
+                    function='fast_range2parts', line=getattr(
+                        n, 'lineno', fr.lineno))
     return rr
 
 
